@@ -223,23 +223,25 @@ def requests(c, io):
     if c['kind'] == 'tilt': return []        # oracle-only class: propagation with tilt shifts is outside Model/PropSeg.lean
     return [_req(c, c['seg']), _req(c, c['mono'])]
 
-def _scale(c):
-    s = 1.0
+def _scale(c, key='field', pre=False):
+    """bound on the compared quantity (tolerance = 1e-9*(1 + this)): |field| <= prod max|amp| before propagation and
+    <= prod max|amp| * (number of pupil samples) after the unitary DFT; intensity: its square"""
+    f = 1.0
     for p in c['mono']:
         a = p['amp']
-        s *= max(1.0, max(abs(x) for x in a['v']) if 'v' in a else abs(a['scalar']))
-    n = max(p['mask']['shape'][0] * p['mask']['shape'][1] for p in c['mono'])
-    return (s * n) ** 2 + 1
+        f *= max(1.0, max(abs(x) for x in a['v']) if 'v' in a else abs(a['scalar']))
+    if 'prop' in c and not pre: f *= max(p['mask']['shape'][0] * p['mask']['shape'][1] for p in c['mono'])
+    return f if key == 'field' else f * f
 
 def _cmp_pre(c, a, m, mode, sc):
     """real wavefront `a` (wf_out) vs model wavefront answer `m`: field list on a canvas, field, intensity"""
     box = H7._field_box(a['data'] + m['data'])
     ci = H7._canvas(a['data'], box, H7._np_arr); cm = H7._canvas(m['data'], box, lambda f: H7._dec_arr(f, mode))
-    if not H7._close(ci, cm, mode, sc): return f'fields differ on the canvas (max {np.max(np.abs(ci - cm)):.3g})'
+    if not H7._close(ci, cm, mode, _scale(c, 'field', True)): return f'fields differ on the canvas (max {np.max(np.abs(ci - cm)):.3g})'
     for key in ('field', 'intensity'):
         if key in a:
             if isinstance(m.get(key), str) or key not in m: return f'model {key}: {m.get(key)}'
-            if not H7._close(H7._np_arr(a[key]), H7._dec_arr(m[key], mode), mode, sc): return f'{key} (before propagation) differs'
+            if not H7._close(H7._np_arr(a[key]), H7._dec_arr(m[key], mode), mode, _scale(c, key, True)): return f'{key} (before propagation) differs'
     return None
 
 def compare(c, io, mo):
@@ -257,7 +259,7 @@ def compare(c, io, mo):
             for key in ('field', 'intensity'):
                 if isinstance(m[key], str): return f'{name}: model {key}: {m[key]}'
                 x, y = H7._np_arr(a[key]), H7._dec_arr(m[key], mode)
-                if not H7._close(x, y, mode, sc): return f'{name}: propagated {key} differs (max {np.max(np.abs(x - y)):.3g})'
+                if not H7._close(x, y, mode, _scale(c, key)): return f'{name}: propagated {key} differs (max {np.max(np.abs(x - y)):.3g})'
     return None
 
 # ------------------------------------------------------------------------------------------ oracle (real code only)
@@ -278,10 +280,11 @@ def _oracle_tilt(c, io):
                     if tb[0] <= r <= tb[1] and tb[2] <= q <= tb[3]: out[r - tb[0], q - tb[2]] += d[i, j]
         return out
     total = place(io['chips'])
-    sc = 1.0 + float(np.max(np.abs(total))) ** 2 + sum(float(np.max(np.abs(_chip_arr(ch)))) for ch in io['chips']) ** 2
-    tol = 1e-9 * sc
+    pk = sum(float(np.max(np.abs(_chip_arr(ch)))) for ch in io['chips'])
+    sc = 1.0 + pk
+    tol = 1e-9 * (1.0 + pk * pk)
     f = H7._np_arr(io['field']); I = H7._np_arr(io['intensity']).real
-    if np.max(np.abs(f - total)) > tol: return 'Wavefront.field is not the coherent sum of the per-segment fields'
+    if np.max(np.abs(f - total)) > 1e-9 * sc: return 'Wavefront.field is not the coherent sum of the per-segment fields'
     if np.max(np.abs(I - H7._nsq(total))) > tol:
         return (f'contributions of different segments landing on the same samples were not added coherently: '
                 f'intensity != |sum of fields|^2 (max {np.max(np.abs(I - H7._nsq(total))):.3g}; {len(io["chips"])} fields, extents {[ch["ext"] for ch in io["chips"]]})')
@@ -292,7 +295,7 @@ def _oracle_tilt(c, io):
             F = _chip_arr(fu)
             if not (E[0] <= e[0] and e[1] <= E[1] and E[2] <= e[2] and e[3] <= E[3]): continue
             crop = F[e[0] - E[0]:e[1] - E[0] + 1, e[2] - E[2]:e[3] - E[2] + 1]
-            if np.max(np.abs(crop - _chip_arr(ch))) > 1e-7 * sc:
+            if np.max(np.abs(crop - _chip_arr(ch))) > 1e-9 * sc:
                 return f'segment {k}: the windowed field with fitted tilt differs from the same window of the full propagation (max {np.max(np.abs(crop - _chip_arr(ch))):.3g})'
     return None
 
@@ -303,20 +306,20 @@ def oracle(c, io):
     s, m = io['seg'], io['mono']
     for key in ('field', 'intensity'):
         x, y = H7._np_arr(s['pre'][key]), H7._np_arr(m['pre'][key])
-        if not H7._close(x, y, mode, sc):
+        if not H7._close(x, y, mode, _scale(c, key, True)):
             return f'segmented and monolithic {key} differ after the chain of planes (max {np.max(np.abs(x - y)):.3g})'
     # coherent addition: the intensity is the squared modulus of the summed complex amplitudes
     for name, r in (('segmented', s), ('monolithic', m)):
         f = H7._np_arr(r['pre']['field'])
-        if not H7._close(H7._np_arr(r['pre']['intensity']), H7._nsq(f), mode, sc): return f'{name}: intensity != |field|^2 before propagation'
+        if not H7._close(H7._np_arr(r['pre']['intensity']), H7._nsq(f), mode, _scale(c, 'intensity', True)): return f'{name}: intensity != |field|^2 before propagation'
     if 'prop' in c:
         for key in ('field', 'intensity'):
             x, y = H7._np_arr(s[key]), H7._np_arr(m[key])
-            if not H7._close(x, y, mode, sc):
+            if not H7._close(x, y, mode, _scale(c, key)):
                 return f'segmented and monolithic {key} differ after propagation (max {np.max(np.abs(x - y)):.3g})'
         for name, r in (('segmented', s), ('monolithic', m)):
             f = H7._np_arr(r['field'])
-            if not H7._close(H7._np_arr(r['intensity']), H7._nsq(f), mode, sc):
+            if not H7._close(H7._np_arr(r['intensity']), H7._nsq(f), mode, _scale(c, 'intensity')):
                 return f'{name}: contributions were not added coherently (intensity != |sum of fields|^2, max {np.max(np.abs(H7._np_arr(r["intensity"]) - H7._nsq(f))):.3g})'
     return None
 
